@@ -7,9 +7,9 @@ TB = ("Trusted: Lean 4.33 kernel (+ propext, Classical.choice, Quot.sound, audit
       "(overlay Go driver, batch compiler harness, run.py, canonicalisers); Go compiler/runtime; utf8.DecodeRune, strconv, gob/gzip, text/template, go/format modelled or assumed. ")
 
 CLAIMS = {
- "C01": ("Theorems (all tables, all byte strings): Scan meets the declarative ScanSpec (skip complete ignored lexemes, follow the automaton while a transition exists, return the last state's token with exactly that text, INVALID swallows the offending rune, EOF for ever) and ScanSpec determines the result; bisimilar automata give identical token streams. Generator: Lean model of the item-set construction tied to gocc by exact equality of every generated table; oracle = macro-expanded reference semantics (product walk + token streams). Known finding D1 (regdef sharing).",
-         "The generator-vs-reference equivalence is checked per grammar by an executable product walk, not proved for all grammars (D1 makes the unrestricted statement false); reference needs acyclic definitions.",
-         "Lean 4 proof (loop invariant, spec uniqueness, bisimulation) + exact table correspondence + reference-semantics oracle"),
+ "C01": ("Theorems (all tables, all byte strings): Scan meets the declarative ScanSpec (skip complete ignored lexemes, follow the automaton while a transition exists, return the last state's token with exactly that text, INVALID swallows the offending rune, EOF for ever) and ScanSpec determines the result; VERIFIED equivalence checker: equivCheck M R = true implies identical token streams (types, literals, positions) of the generated automaton and the reference automaton on EVERY byte string (C01_equivCheck_sound). The checker is evaluated for every grammar the run visits, with M = the Lean model of gocc's item-set construction (tied to gocc by exact equality of every compiled table, state numbering included) and R = the macro-expanded reference semantics ('.' as fallback, string literals first, then declaration order). Token streams of compiled lexers are additionally compared with the reference directly. Known finding D1 (regdef sharing): grammars on which the checker rejects and impl = model.",
+         "'For all grammars' is covered per visited grammar (D1 makes the unrestricted statement false); the reference needs acyclic regular definitions; the reference automaton construction itself (refDfa) is the executable specification.",
+         "Lean 4 proof (loop invariant, spec uniqueness, verified bisimulation checker) + exact table correspondence + reference-semantics oracle"),
  "C02": ("Verified validators: theorems C02_accept_sound (tables passing safe/safeEnds: accept implies sentence) and C02_sentence_accepted (tables passing firstOk/complete: every sentence is accepted with enough fuel), together C02_accept_iff_sentence, for EVERY token sequence. Both validators are evaluated on every table gocc generates in the run (certificates = the model's LR(1) item sets and FIRST sets), so for each visited conflict-free grammar acceptance = membership for all inputs. Tables tied to the Lean LR(1) generator model by exact equality; Earley recogniser as an independent oracle; verdicts also checked on reused parser objects.",
          "'For all grammars' is covered by validating each visited grammar, not by a theorem about the generator; termination on non-sentences is observed (watchdog + fuel), not proved.",
          "Lean 4 verified table validators (soundness: stack invariant carrying parse trees; completeness: induction on derivations) + exact table correspondence + Earley oracle"),
